@@ -201,7 +201,9 @@ class Scanner:
             self.add_token("IDENTIFIER")
 
     def char(self):
-        while self.peek() not in ["'", '"'] and not self.at_end():
+        # A string ends at a quotation mark of the kind that opened it
+        quote = "'" if self.code[self.start] == "'" else '"'
+        while self.peek() != quote and not self.at_end():
             self.advance()
 
         if self.at_end():
